@@ -945,7 +945,7 @@ func globalInitErrorsNew(g *ssa.Global) bool {
 		for _, ins := range b.Instrs {
 			if s, ok := ins.(*ssa.Store); ok && s.Addr == ssa.Value(g) {
 				if c, ok := s.Val.(*ssa.Call); ok {
-					if f := c.Call.StaticCallee(); f != nil && f.Pkg != nil && (f.Pkg.Pkg.Path() == "errors" && f.Name() == "New" || f.Pkg.Pkg.Path() == "fmt" && f.Name() == "Errorf") {
+					if f := c.Call.StaticCallee(); f != nil && f.Pkg != nil && (f.Pkg.Pkg.Path() == "errors" && f.Name() == "New" || f.Pkg.Pkg.Path() == "fmt" && f.Name() == "Errorf" || f.Pkg.Pkg.Path() == "reflect" && f.Name() == "TypeOf") {
 						return true
 					}
 				}
